@@ -23,15 +23,29 @@ Theorem C06_refused_when_new_directories_escape : forall c f r rest w cwd bl cwd
 Proof. exact refused_when_new_directories_escape. Qed.
 Print Assumptions C06_refused_when_new_directories_escape.
 
+(* ... and when the file itself really lives outside its input directory: it was reached through a symbolic
+   link to a directory that leaves the input directory (recursive gathering follows such links).  Whatever
+   the destination, nothing is touched: an entry outside the input directory is never removed (F32, fixed) *)
+Theorem C06_refused_when_source_outside : forall c f r rest w cwd bl cwd1 np,
+  chdir (w_fs w) (pf_dir f) = Some cwd1 ->
+  generate (c_mode c) f r = inl np -> ppath_eqb np (pf_rel f) = false ->
+  contained (c_var c) (w_fs w) f np = Some true ->
+  parents_contained (w_fs w) f np = Some true ->
+  source_contained (w_fs w) f = Some false ->
+  first_pass c ((f, r) :: rest) w cwd bl = (w, cwd1, bl, Some ExInvalidDest).
+Proof. exact refused_when_source_outside. Qed.
+Print Assumptions C06_refused_when_source_outside.
+
 Theorem C06_refusal_is_status_1 : status_of ExInvalidDest = 1%Z.
 Proof. exact invalid_dest_is_status_1. Qed.
 Print Assumptions C06_refusal_is_status_1.
 
-(* the renamer is reached for a file only after both containment tests succeeded *)
+(* the renamer is reached for a file only after all three containment tests succeeded *)
 Theorem C06_renamer_reached_only_inside : forall c f r rest w cwd bl np cwd1,
   chdir (w_fs w) (pf_dir f) = Some cwd1 ->
   generate (c_mode c) f r = inl np -> ppath_eqb np (pf_rel f) = false ->
-  (contained (c_var c) (w_fs w) f np = Some true /\ parents_contained (w_fs w) f np = Some true) \/
+  (contained (c_var c) (w_fs w) f np = Some true /\ parents_contained (w_fs w) f np = Some true /\
+   source_contained (w_fs w) f = Some true) \/
   (exists e, first_pass c ((f, r) :: rest) w cwd bl = (w, cwd1, bl, Some e)).
 Proof. exact renamer_reached_only_inside. Qed.
 Print Assumptions C06_renamer_reached_only_inside.
@@ -88,6 +102,19 @@ Example C06_string_prefix_refuted :
   r_calls (run (f8_cfg fixed false) f8_plan [] f8_fs) = [] /\
   r_status (run (f26_cfg fixed false) f26_plan [] f26_fs) = 1%Z /\
   r_calls (run (f26_cfg fixed false) f26_plan [] f26_fs) = [].
+Proof. vm_compute. repeat split. Qed.
+
+(* Finding F32 (fixed): in/lnk -> ../out, out/keep.txt; the entry 'lnk/keep.txt' (as recursive gathering yields it),
+   path template 'moved/%Name()': both destination tests say yes, the test on the source's real directory says no;
+   status 1, no call, the tree is untouched -- for the real run and the dry run alike *)
+Example C06_source_outside_refused :
+  contained fixed f32_fs (fst (hd (Build_pfile [] (parse_path []), RText []) f32_plan)) (parse_path [109;111;118;101;100;47;107;101;101;112;46;116;120;116]) = Some true /\
+  parents_contained f32_fs (fst (hd (Build_pfile [] (parse_path []), RText []) f32_plan)) (parse_path [109;111;118;101;100;47;107;101;101;112;46;116;120;116]) = Some true /\
+  source_contained f32_fs (fst (hd (Build_pfile [] (parse_path []), RText []) f32_plan)) = Some false /\
+  r_status (run (f32_cfg fixed false) f32_plan [] f32_fs) = 1%Z /\
+  r_calls (run (f32_cfg fixed false) f32_plan [] f32_fs) = [] /\
+  r_final (run (f32_cfg fixed false) f32_plan [] f32_fs) = f32_fs /\
+  r_status (run (f32_cfg fixed true) f32_plan [] f32_fs) = 1%Z.
 Proof. vm_compute. repeat split. Qed.
 
 (* ---------- the kernel's resolution agrees with Path.resolve() ------------------------------------------ *)
@@ -169,6 +196,44 @@ Theorem C06_confined_renamer_step : forall c w f np w' e,
 Proof. exact confined_renamer_step. Qed.
 Print Assumptions C06_confined_renamer_step.
 
+(* ---------- any source: links and ".." on the way to the file being renamed ------------------------------- *)
+(* The third test of first_pass (F32): Path.resolve() of the PARENT of (input directory / relative path) lies at
+   or below the input directory.  The kernel follows every link but the last component's, so the entry that
+   rename(2) takes away is keyed realpath(parent) ++ [last component]: at or below the input directory, with no
+   hypothesis on the relative path at all.  (A trailing ".." or an empty path is refused by rename(2).) *)
+Theorem C06_source_key_inside : forall s f sp sn,
+  chdir s (pf_dir f) = Some (pf_dir f) ->
+  source_contained s f = Some true ->
+  bad_last (to_upath (pf_rel f)) = false ->
+  resolve s (pf_dir f) (to_upath (pf_rel f)) false = WFound sp sn ->
+  is_prefix_path (pf_dir f) sp = true.
+Proof. intros s f sp sn Hc Hs. exact (source_key_inside s f sp sn Hc (source_contained_inside s f Hs)). Qed.
+Print Assumptions C06_source_key_inside.
+
+Theorem C06_confined_step_any_source : forall s f np s' dpar dname,
+  chdir s (pf_dir f) = Some (pf_dir f) ->
+  contained fixed s f np = Some true ->
+  source_contained s f = Some true ->
+  resolve s (pf_dir f) (to_upath np) false = WMissing dpar dname ->
+  os_rename s (pf_dir f) (to_upath (pf_rel f)) (to_upath np) = SOk s' ->
+  is_prefix_path (pf_dir f) (dpar ++ [dname]) = true /\
+  (exists sp sn, resolve s (pf_dir f) (to_upath (pf_rel f)) false = WFound sp sn /\
+                 is_prefix_path (pf_dir f) sp = true /\ s' = rekey sp (dpar ++ [dname]) s) /\
+  (forall k n, In (k, n) s' -> ~ In (k, n) s -> is_prefix_path (pf_dir f) k = true) /\
+  (forall k n, In (k, n) s -> ~ In (k, n) s' -> is_prefix_path (pf_dir f) k = true).
+Proof. exact confined_step_any_source. Qed.
+Print Assumptions C06_confined_step_any_source.
+
+Theorem C06_confined_renamer_step_any_source : forall c w f np w' e,
+  c_var c = fixed -> (c_dry c = true \/ c_mode c <> MPath) ->
+  chdir (w_fs w) (pf_dir f) = Some (pf_dir f) ->
+  contained (c_var c) (w_fs w) f np = Some true ->
+  source_contained (w_fs w) f = Some true ->
+  renamer c w (pf_dir f) (pf_rel f) np false = (w', e) ->
+  changes_below (pf_dir f) (w_fs w) (w_fs w').
+Proof. exact confined_renamer_step_any_source. Qed.
+Print Assumptions C06_confined_renamer_step_any_source.
+
 (* non-vacuity: "lnk/../x" through a symlinked directory — the kernel and realpath both take ".." of the real
    directory; and a tree on which every hypothesis of C06_confined_step holds *)
 Example C06_agreement_example :
@@ -229,13 +294,37 @@ Theorem C06_confined_renamer_step_all_modes : forall c w f np w' e,
 Proof. exact confined_renamer_step_all_modes. Qed.
 Print Assumptions C06_confined_renamer_step_all_modes.
 
+(* ... and for any source, once the three tests of first_pass said yes *)
+Theorem C06_confined_step_after_mkdir_any_source : forall s0 s f np s' dpar dname,
+  chdir s0 (pf_dir f) = Some (pf_dir f) ->
+  contained fixed s0 f np = Some true ->
+  source_contained s0 f = Some true ->
+  dir_ext s0 s ->
+  resolve s (pf_dir f) (to_upath np) false = WMissing dpar dname ->
+  os_rename s (pf_dir f) (to_upath (pf_rel f)) (to_upath np) = SOk s' ->
+  is_prefix_path (pf_dir f) (dpar ++ [dname]) = true /\ changes_below (pf_dir f) s s'.
+Proof. exact confined_step_after_mkdir_any_source. Qed.
+Print Assumptions C06_confined_step_after_mkdir_any_source.
+
+Theorem C06_confined_renamer_step_all_modes_any_source : forall c w f np w' e,
+  c_var c = fixed ->
+  chdir (w_fs w) (pf_dir f) = Some (pf_dir f) ->
+  contained (c_var c) (w_fs w) f np = Some true ->
+  parents_contained (w_fs w) f np = Some true ->
+  source_contained (w_fs w) f = Some true ->
+  renamer c w (pf_dir f) (pf_rel f) np false = (w', e) ->
+  changes_below (pf_dir f) (w_fs w) (w_fs w').
+Proof. exact confined_renamer_step_all_modes_any_source. Qed.
+Print Assumptions C06_confined_renamer_step_all_modes_any_source.
+
 (* one whole step of first_pass on the head of the plan, for every configuration of the current code, every
-   rendered text, tree and fault: the world handed on (to the rest of the plan, or returned with the error)
-   differs from the one before only at or below the input directory of the file being processed *)
+   rendered text, tree and fault, and EVERY source path (links, "..", anything the gatherer may hand over):
+   the world handed on (to the rest of the plan, or returned with the error) differs from the one before only
+   at or below the input directory of the file being processed.  Before the repair of F32 this needed the
+   hypothesis [plain_source]; the test on the source's real directory made it superfluous. *)
 Theorem C06_first_pass_head_confined : forall c f r w cwd bl,
   c_var c = fixed ->
   chdir (w_fs w) (pf_dir f) = Some (pf_dir f) ->
-  plain_source (w_fs w) f ->
   exists w1, changes_below (pf_dir f) (w_fs w) (w_fs w1) /\
     ((exists bl1, forall rest, first_pass c ((f, r) :: rest) w cwd bl = first_pass c rest w1 (pf_dir f) bl1) \/
      (exists e, forall rest, first_pass c ((f, r) :: rest) w cwd bl = (w1, pf_dir f, bl, Some e))).
